@@ -113,6 +113,7 @@ def run_case(ctx, rep, spec, field, volfrac, limit, model, path=None, truth=None
         else:
             mv = m["integral"][0] / m["integral"][1]
             sv = m["spec"][0] / m["spec"][1]
+            rep.count("theorem-hypothesis-holds" if m.get("aligned") else "theorem-hypothesis-fails")
             if abs(got - mv) <= tol and abs(mv - sv) <= tol:
                 rep.agree()
             else:
